@@ -37,6 +37,7 @@ class RuleSet:
                vary=True, extra_options=()):
         pr = patgen.Printer(rng, posix_prec=self.posix_prec, vary=vary)
         lines2 = []
+        self._rule_pos = {}
         # group consecutive rules with the same start-condition list into a scope, sometimes
         i = 0
         n = len(self.rules)
@@ -50,9 +51,11 @@ class RuleSet:
                 lines2.append(pre + '{')
                 for k in range(i, j):
                     lines2.append(self._rule_line(pr, self.rules[k], '', action(k + 1)))
+                    self._rule_pos[len(lines2) - 1] = k + 1
                 lines2.append('}')
             else:
                 lines2.append(self._rule_line(pr, r, pre, action(i + 1)))
+                self._rule_pos[len(lines2) - 1] = i + 1
             i = j
         s1 = []
         opts = list(self.options) + list(extra_options)
@@ -69,6 +72,15 @@ class RuleSet:
         for name, ex in self.scs[1:]:
             s1.append('%s %s' % ('%x' if ex else '%s', name))
         text = '\n'.join(s1) + '\n%%\n' + '\n'.join(lines2) + '\n%%\n' + epilogue
+        # line number (1-based) of each rule in the file just printed
+        base = ('\n'.join(s1) + '\n%%\n').count('\n')
+        self.rule_lines = {}
+        ln = base
+        for pos, l in enumerate(lines2):
+            ln += 1
+            if pos in self._rule_pos:
+                self.rule_lines[self._rule_pos[pos]] = ln
+            ln += l.count('\n')
         return text
 
     def _scprefix(self, r):
